@@ -46,6 +46,7 @@ def handlers : List (String × Handler) :=
     ("c15.scan", C15.scanHandler),
     ("c15.ops", C15.opsHandler),
     ("c16.rel", C16.handler),
+    ("c16.conj", C16.conjHandler),
     ("c09.hist", C09.handler),
     ("c09.hist.pinned", C09.handlerPinned),
     ("c20.load", C20.handler),
